@@ -10,6 +10,7 @@ import (
 	"net"
 	"os"
 	"sync"
+	"time"
 
 	"github.com/uhppoted/uhppote-core/uhppote"
 )
@@ -34,6 +35,10 @@ type Driver struct {
 	// Auto, when set, answers every request by itself (the script is not used): for checks in which several goroutines share
 	// one client, where a script could not tell whose reply is whose
 	Auto func(request []byte) []byte
+	// Shared, when set, makes Broadcast answer every call with fresh copies of the WHOLE script (nothing is consumed): for
+	// discoveries that run at the same time. Dwell is how long Broadcast takes (the real driver collects for the whole timeout).
+	Shared bool
+	Dwell  time.Duration
 
 	listenCB func([]byte)
 	signal   chan any
@@ -84,6 +89,20 @@ func (d *Driver) Broadcast(addr *net.UDPAddr, request []byte) ([][]byte, error) 
 	}
 	replies := [][]byte{}
 	if len(request) > 1 && request[1] == 0x96 {
+		return replies, nil
+	}
+	if d.Dwell > 0 {
+		time.Sleep(d.Dwell)
+	}
+	if d.Shared {
+		d.mu.Lock()
+		defer d.mu.Unlock()
+		for _, src := range d.Script {
+			buf := make([]byte, len(src), len(src)+64)
+			copy(buf, src)
+			d.Delivered = append(d.Delivered, buf)
+			replies = append(replies, buf)
+		}
 		return replies, nil
 	}
 	for {
